@@ -65,12 +65,13 @@ def streams(tier, rng):
         if base["n"] == "-" or int(base["n"]) > 14:
             base["n"] = rng.randrange(1, 12)
         aimed.extend(L.aim_budget(rng, base, rng.choice(["max", "max", "min"])))
-    e2e = L.e2e_cases(rng, 185 if not big else 500)
+    e2e = L.e2e_cases(rng, 200 if not big else 500)
     cut = L.tuned_cut_cases(rng, 150 if not big else 3000)
     return [
         L.make_stream("c03-corpus", "c03", L.corpus("C03")),
         L.e2e_stream("c03-e2e-table", e2e),
         L.fig_stream("c03-figures-large", rng, 80 if not big else 2000),
+        L.into_threads_stream("c03-into-threads", rng),
         L.make_stream("c03-counts", "c03", cases, hist=L.histogram(cases),
                       describe="(n, s, T, mode) x cost scripts, no time budget"),
         L.make_stream("c03-budget-premise", "c03", aimed, hist=L.histogram(aimed),
